@@ -47,7 +47,7 @@ def run(ctx):
         "TangentVector.isometry_to", "Point.origin_to",
         "Point.unit_tangent_towards", "None.timelike_to",
         "None.spacelike_to", "TangentVector._compute_aux_data"})
-    ctx.do(SH.rule_sh5, only={"TangentVector.normalized", "TangentVector.angle", "TangentVector.point_along", "TangentVector.origin_to", "TangentVector.isometry_to", "Point.origin_to", "Point.unit_tangent_towards"})
+    ctx.do(SH.rule_sh5, only={"TangentVector.normalized", "TangentVector.angle", "TangentVector.point_along", "TangentVector.origin_to", "TangentVector.isometry_to", "Point.origin_to", "Point.unit_tangent_towards", "Point.get_origin", "TangentVector.get_base_tangent"})
     ctx.do(u1, ENTRIES, min_functions=15)
     ctx.r.assume("every numerical clause (origin -> p, distances along "
                  "geodesics, law of cosines, polygon angles) is not decided")
